@@ -2126,10 +2126,11 @@ impl Com {
                 out.count("fetch-none");
             }
         }
-        // the peer's last common header afterwards: unchanged, or an ancestor of its best known header that we store
+        // the peer's last common header afterwards: unchanged, or an ancestor of its best known header that we store or that
+        // is an ancestor of the previous one (the LCA step; `pslc` may have put an unstored header there)
         if lc_real != lc_prev {
             let good = match (lc_real, best) {
-                (Some(l), Some((bid, _))) => self.is_anc(l, bid) && (self.hdrs[l as usize].3 || Some(l) == lc_prev),
+                (Some(l), Some((bid, _))) => self.is_anc(l, bid) && (self.hdrs[l as usize].3 || lc_prev.map_or(false, |x| self.is_anc(l, x))),
                 _ => false,
             };
             if !good {
@@ -2162,7 +2163,10 @@ impl Com {
         for q in 0..n {
             match rng.below(14) {
                 10..=11 => {
-                    let p = rng.below(4);
+                    // mostly a peer whose best known header has more work than our tip (the others return early)
+                    let mytd = self.tds[self.main_tip as usize];
+                    let ahead: Vec<u64> = self.peers.iter().filter(|(_, st)| st.0.map_or(false, |b| b.1 > mytd)).map(|(p, _)| *p).collect();
+                    let p = if !ahead.is_empty() && rng.chance(3, 4) { *rng.pick(&ahead) } else { rng.below(4) };
                     let best_n = self.peers.get(&p).and_then(|st| st.0).map(|b| self.num(b.0)).unwrap_or(10);
                     let fetch_end = match rng.below(5) { 0 => best_n.saturating_sub(rng.below(6)), 1 => rng.below(best_n + 3), _ => u64::MAX };
                     self.f_fetch(out, p, fetch_end, rng.chance(1, 5));
